@@ -7,10 +7,10 @@ and vector elements and captured references), real interpreter vs model. Oracle 
 implementation alone: a reference simulation of the history in Python (bindings and vectors as
 Python objects with identity) predicts every probe."""
 import random
-from . import common as C, progrun as R
+from . import common as C, proggen as P, progrun as R
 
 PROP = "C03"
-MODULES = ["RuschmProofs.C03"]
+MODULES = ["RuschmProofs.C03", "RuschmProofs.C03More"]
 PRELUDE = [
     "(define (mk-counter) (let ((n 0)) (lambda () (set! n (+ n 1)) n)))",
     "(define (mk-pair) (let ((n 0)) (cons (lambda (d) (set! n (+ n d)) n) (lambda () n))))",
@@ -245,7 +245,8 @@ class Sim:
             self.emit("(eqv? %s %s)" % (a, b), "V #t" if self.vecs[a] is self.vecs[b] else "V #f")
         elif op == "literal-set":
             self.emit(r.choice(["(vector-set! #(1 2 3) 0 9)", "(vector-set! '#(1 2) 1 9)", "(poke! #(5) 0 1)",
-                                "((mk-poker '#(7 8)) 0 1)"]), "E immutable")
+                                "((mk-poker '#(7 8)) 0 1)", "(poke! (car '(#(1 2) 3)) 0 9)", "(vector-set! (vector-ref #(#(1 2) #(3)) 1) 0 9)",
+                                "((mk-poker (car (cdr '(1 #(2))))) 0 1)", "(poke! (vector-ref '#(5 #(6)) 1) 0 1)"]), "E immutable")
         elif op == "bump":
             self.g += 1; self.emit("(bump-g!)", "V i:%d" % self.g)
         elif op == "shadow":
@@ -290,6 +291,49 @@ def run(rep, tier, rng):
                                "history": s.forms[:k + 1], "probe": s.forms[k], "expected": e, "implementation": g})
                 break
     rep.extra["operations"] = ops
+    scope_soup(rep, tier, rng)
+
+
+def scope_soup(rep, tier, rng):
+    """SCOPE SOUP (proggen.scope_soup): nested let / let* / applied lambdas / bodies with internal definitions over a pool of three
+    names (constant shadowing and re-binding, a let* binding one name twice with closures made in between), closures that read
+    or assign a visible name collected at every level and then called in random order; judged by the independent reference
+    evaluator (checks/pyeval.py), which decides by lexical scoping alone which binding each closure means."""
+    from . import pyeval
+    n = 150 if tier == "quick" else 4000
+    cases = []
+    for i in range(n):
+        forms, _ = P.scope_soup(rng, depth=rng.randrange(2, 5))
+        ref = pyeval.run_program(forms)
+        if ref is None:
+            continue
+        k = int(ref[0][-1].split(":")[1])
+        if k == 0:
+            continue
+        forms = forms + P.scope_calls(rng, k, rng.randrange(6, 16))
+        ref = pyeval.run_program(forms)
+        if ref is None:
+            continue
+        cases.append(("s%d" % i, "prog", ["std"] + forms, ref[0]))
+    impl = C.run_hx([c[:3] for c in cases])
+    model = C.run_driver([c[:3] for c in cases])
+    judged = 0
+    for cid, _, fields, ref in cases:
+        got = impl.get(cid)
+        if got is None:
+            continue
+        rep.count(); judged += 1
+        rep.nontrivial(("scope", tuple(fields)))
+        got_n = [R.norm_result(x) for x in got]
+        if got_n != [R.norm_result(x) for x in ref]:
+            j = next((j for j in range(min(len(got), len(ref))) if R.norm_result(got[j]) != R.norm_result(ref[j])), None)
+            rep.violation({"what": "a closure does not read or assign the binding lexical scoping designates (independent reference evaluator)",
+                           "program": fields[1:], "form_index": j, "form": fields[1 + j] if j is not None else None,
+                           "implementation": got[j] if j is not None else got, "reference": ref[j] if j is not None else ref})
+        elif [R.norm_result(x) for x in model.get(cid, [])] != got_n:
+            rep.violation({"broken": "correspondence store/scoping (RuschmModel/Eval.lean <-> interpreter.rs) on a scope-soup program",
+                           "program": fields[1:], "implementation": got, "model": model.get(cid)}, no_input=True)
+    rep.extra["scope_soup_programs_judged"] = judged
 
 
 def main(tier, seed):
@@ -298,7 +342,9 @@ def main(tier, seed):
     rep.cov["rule"] = ("random histories of 10-60 operations over counters from generator procedures and from loops (self tail call, mutual "
                        "tail calls, non-tail recursion) whose closures capture one iteration's frame, closure pairs sharing "
                        "one binding, a global and a shadowing local, vectors aliased through variables, arguments, list "
-                       "elements, vector elements and captured references, literal-vector mutation attempts; distinct = "
+                       "elements, vector elements and captured references, literal-vector mutation attempts; plus scope soup (nested let / let* / "
+                       "applied lambdas / internal definitions over three names with constant shadowing and re-binding, closures "
+                       "collected at every level and called in random order, judged by the reference evaluator); distinct = "
                        "distinct histories")
     ok = C.standard_proof_phase(rep, MODULES, directed_search=lambda r: run(r, tier, rng))
     if ok:
